@@ -1,24 +1,24 @@
 #!/bin/bash
 # tools/seed_confirm.sh ID   — confirm the candidate seeded changes of /tmp/seed/out-ID in the agent's scratch
 # worktree (compiles, existing suite passes, demo differs from the original build); results in /tmp/seed/confirm-ID.txt
-ID=$1; WT=/tmp/seed/wt-$ID; OUT=/tmp/seed/out-$ID; RES=/tmp/seed/confirm-$ID.txt
+ID=$1; R=${SEED_ROUND:-}; WT=/tmp/seed/wt$R-$ID; OUT=/tmp/seed/out$R-$ID; RES=/tmp/seed/confirm$R-$ID.txt
 export CARGO_NET_OFFLINE=true
 : > $RES
 cd $WT || exit 1
 git checkout -q -- . ; git clean -fdq -e target
-timeout 3000 cargo build -q --offline -p koto_cli 2>/dev/null; cp target/debug/koto /tmp/seed/koto-orig-$ID
+timeout 3000 cargo build -q --offline -p koto_cli 2>/dev/null; cp target/debug/koto /tmp/seed/koto-orig$R-$ID
 for m in $OUT/m[0-9]; do
   k=$(basename $m)
   echo "== $ID $k" >> $RES
   git checkout -q -- .
   if ! git apply --check $m/patch.diff 2>>$RES; then echo "patch does not apply" >> $RES; continue; fi
   git apply $m/patch.diff
-  timeout 3000 cargo test --workspace --no-fail-fast --offline > /tmp/seed/test-$ID-$k.log 2>&1
-  echo "suite: $(grep -E '^test result' /tmp/seed/test-$ID-$k.log | awk '{p+=$4; f+=$6} END {print p" passed "f" failed"}') ; build errors: $(grep -c '^error' /tmp/seed/test-$ID-$k.log)" >> $RES
+  timeout 3000 cargo test --workspace --no-fail-fast --offline > /tmp/seed/test$R-$ID-$k.log 2>&1
+  echo "suite: $(grep -E '^test result' /tmp/seed/test$R-$ID-$k.log | awk '{p+=$4; f+=$6} END {print p" passed "f" failed"}') ; build errors: $(grep -c '^error' /tmp/seed/test$R-$ID-$k.log)" >> $RES
   timeout 3000 cargo build -q --offline -p koto_cli 2>/dev/null
   if [ -f $m/demo.koto ]; then
-    (cd $m && timeout 20 /tmp/seed/koto-orig-$ID demo.koto > /tmp/seed/demo-$ID-$k.orig 2>&1; timeout 20 $WT/target/debug/koto demo.koto > /tmp/seed/demo-$ID-$k.mut 2>&1)
-    if cmp -s /tmp/seed/demo-$ID-$k.orig /tmp/seed/demo-$ID-$k.mut; then echo "demo: SAME output on original and mutated build" >> $RES; else echo "demo: differs (orig vs mutated):" >> $RES; diff /tmp/seed/demo-$ID-$k.orig /tmp/seed/demo-$ID-$k.mut | head -12 >> $RES; fi
+    (cd $m && timeout 20 /tmp/seed/koto-orig$R-$ID demo.koto > /tmp/seed/demo$R-$ID-$k.orig 2>&1; timeout 20 $WT/target/debug/koto demo.koto > /tmp/seed/demo$R-$ID-$k.mut 2>&1)
+    if cmp -s /tmp/seed/demo$R-$ID-$k.orig /tmp/seed/demo$R-$ID-$k.mut; then echo "demo: SAME output on original and mutated build" >> $RES; else echo "demo: differs (orig vs mutated):" >> $RES; diff /tmp/seed/demo$R-$ID-$k.orig /tmp/seed/demo$R-$ID-$k.mut | head -12 >> $RES; fi
   else echo "demo: no demo.koto ($(ls $m | tr '\n' ' '))" >> $RES; fi
 done
 git checkout -q -- .
